@@ -73,7 +73,7 @@ def plan(tier):
 
 
 def run(tier, seed):
-    return checkbase.run_e1("C10", tier, seed, TECH, (lambda: plan(tier)), monitors.c10, 240, 1500,
+    return checkbase.run_e1("C10", tier, seed, TECH, (lambda: plan(tier)), monitors.c10, 420, 2400,
                             "executions = complete runs of the real traversal for every outcome sequence (7 reportable statuses) up to max_tries per test under "
                             "each enumerated max_tries / rerun_status / stop_status setting (one worker: all sequences; two workers: all schedules within k), "
                             "invalid settings, and replays of a previous job with every assignment of previous results to the leaves; "
